@@ -70,7 +70,7 @@ Section Sim.
     | AColor a, AColor b => a = b /\ R phi (snd p1) (snd p2)
     | ASeq sub1, ASeq sub2 =>
       exists phi', R phi' sub1 sub2 /\
-        forall sub1' sub2' dr, R phi' sub1' sub2' -> (dr = true -> Done2 sub2') ->
+        forall sub1' sub2' dr, R phi' sub1' sub2' -> (dr = true -> Done2 sub2') -> (dr = false -> h = HSeq) ->
           sim (R phi) (p_seq_exit ops1 h (snd p1) sub1' dr) (p_seq_exit ops2 h (snd p2) sub2' dr)
     | AMap sub1, AMap sub2 =>
       exists phi', IsRoot false phi' /\ R phi' sub1 sub2 /\
@@ -150,20 +150,21 @@ Section Sim.
     Qed.
 
     (* value, cursor, drained flag *)
+    Variable seq_hint : hint.
     Definition seq_res_rel (p1 : dval * S1 * bool) (p2 : dval * S2 * bool) : Prop :=
       fst (fst p1) = fst (fst p2) /\ snd p1 = snd p2 /\ R phi (snd (fst p1)) (snd (fst p2)) /\
-      (snd p1 = true -> Done2 (snd (fst p2))).
+      (snd p1 = true -> Done2 (snd (fst p2))) /\ (snd p1 = false -> seq_hint = HSeq).
 
-    Lemma visit_seq_sim n sh a1 a2 : R phi a1 a2 ->
+    Lemma visit_seq_sim n sh a1 a2 : R phi a1 a2 -> seq_hint = hint_of sh ->
       sim seq_res_rel (visit_seq elem1 n sh a1) (visit_seq elem2 n sh a2).
     Proof.
-      intros HR.
+      intros HR HH.
       assert (L : forall s (k : list dval -> dval),
         sim seq_res_rel (do (vs, a') <- seq_loop elem1 n s a1 []; Ok (k vs, a', true))
                         (do (vs, a') <- seq_loop elem2 n s a2 []; Ok (k vs, a', true))).
       { intros s k. eapply sim_bind; [apply seq_loop_sim, HR|].
         intros [vs1 b1] [vs2 b2] (E & H & D). cbn [fst snd] in *. subst.
-        apply sim_ok. repeat split; auto. }
+        apply sim_ok. repeat split; auto. cbn. discriminate. }
       destruct sh; cbn [visit_seq]; try apply sim_err.
       - apply (L sh DSeq).
       - eapply sim_bind; [apply tup_loop_sim, HR|].
@@ -319,8 +320,8 @@ Section Sim.
         destruct (visit_prim F sh p0); cbn [obind]; try (right; reflexivity); try (right; exact I).
         apply sim_ok. split; [reflexivity|exact A].
       - destruct A as (phi' & A & EX).
-        eapply sim_bind; [apply (visit_seq_sim phi'); [intros; apply elem_of_sim; assumption|exact A]|].
-        intros [[v1 b1] d1] [[v2 b2] d2] (E1 & E2 & K & D). cbn [fst snd] in *. subst.
+        eapply sim_bind; [apply (visit_seq_sim phi' _ _ (fun s a1 a2 => elem_of_sim phi' s a1 a2) (hint_of sh)); [exact A|reflexivity]|].
+        intros [[v1 b1] d1] [[v2 b2] d2] (E1 & E2 & K & D & D'). cbn [fst snd] in *. subst.
         eapply sim_bind; [apply EX; assumption|].
         intros e1 e2 K'. apply sim_ok. split; [reflexivity|exact K'].
       - destruct A as [-> A]. rewrite (H_color OS).
